@@ -40,8 +40,10 @@ META = dict(
           'with a schema-carrying node succeeds or is rejected with a type / value / key error (or, for a case without operations, a typed root is constructed)'),
     trusted_base=['extraction: ExtrOcamlBasic only; ocaml/main.ml lexer/printer; cross-checked against vm_compute on a sample',
                   'implementation driver harness/props/symcore_driver.py + harness/props/c03.py (typed roots, snapshots with bound specs, the scope guard) and spec rendering harness/props/c04.py'],
-    assumptions=['values written into spec-checked containers are plain Python values (None, MISSING_VALUE, bool, int, float k/64, short str, tuples, class instances, nested list/dict); '
-                 'symbolic values handed to a typed container, slice assignment, containers held by frozen fields and Dict/List specs inside Tuple specs are covered by the oracle only',
+    assumptions=['values written into spec-checked containers are plain Python values (None, MISSING_VALUE, bool, int, float k/64, short str, tuples, class instances, nested list/dict) '
+                 'or symbolic values given by reference that the field stores as they are or refuses (objects; untyped dicts / lists into a field that routes them to Any or takes none; '
+                 'dicts / lists that carry the very spec the field binds); '
+                 'the binding / compatibility / re-flagging paths of custom_apply, slice assignment, containers held by frozen fields and Dict/List specs inside Tuple specs are covered by the oracle only',
                  'user transforms, regular expressions, Callable/Type specs, forward references are outside the model (as in C04)'],
 )
 META['level_text'] = (
@@ -58,8 +60,8 @@ META['level_text'] = (
     'its own containment rule for specs (independent of is_compatible / custom_apply); a sweep hands typed values to typed fields for 66 spec relations x every write path.')
 META['level_note'] = (
     'Trusted: Coq kernel; extraction (ExtrOcamlBasic) cross-checked against vm_compute on a sample; the drivers, generators and the spec rendering of harness/props/c04.py. '
-    'Modelled, not verified: the Python code itself (tied by the correspondence only). Outside the model (direct oracle only): symbolic values handed to a typed container '
-    '(custom_apply path), slice assignment, containers held by frozen fields, Dict/List specs inside Tuple specs; user transforms, regex, Callable/Type specs, forward references.')
+    'Modelled, not verified: the Python code itself (tied by the correspondence only). Outside the model (direct oracle only): the paths of custom_apply that bind a spec to a value '
+    'given by reference, complete it in place, override its allow_partial flag or rely on is_compatible; slice assignment, containers held by frozen fields, Dict/List specs inside Tuple specs; user transforms, regex, Callable/Type specs, forward references.')
 
 LSETSLICE = 16
 OP_NAMES = dict(D.OP_NAMES); OP_NAMES[LSETSLICE] = 'List.__setitem__(slice)'
@@ -902,7 +904,7 @@ class TGen:
       return [2, self.val(impl, x, key, wild, nodes)]
     f = self.field_of(impl, x, key)
     typed = impl.spec_of(x) is not None
-    if (wild or not typed) and r.random() < (0.2 if typed else 0.35) and nodes:
+    if r.random() < (0.2 if typed else 0.35) and nodes:      # by reference (into a typed container: kept when the model covers it, see ref_modelled)
       y, ri, keys = r.choice(nodes)
       return [1, ri, [ek(k) for k in keys]]
     if (wild or not typed) and r.random() < 0.1:
@@ -1064,8 +1066,8 @@ def typed_members(impl, x):
   if isinstance(x, P.List): return True
   return s.schema is not None
 
-def written(impl, op):
-  """-> [(container node or None, value tree)] for every value the op writes."""
+def written_keyed(impl, op):
+  """-> [(container node or None, key or None, value tree)] for every value the op writes (key: of a dict / object write)."""
   tag = op[0]
   try:
     t = impl.at(op[1])
@@ -1075,16 +1077,101 @@ def written(impl, op):
     out = []
     for p, v in op[2]:
       x = t
-      for kk in [D.dec_key(k) for k in p][:-1]:
+      ks = [D.dec_key(k) for k in p]
+      for kk in ks[:-1]:
         try:
           if isinstance(x, list) and isinstance(kk, int) and -len(x) <= kk < 0: kk += len(x)
           x = x.sym_getattr(kk) if D.is_sym(x) and x.sym_hasattr(kk) else None
         except Exception:     # pylint: disable=broad-except
           x = None
         if x is None: break
-      out.append((x if D.is_sym(x) else None, v))
+      out.append((x if D.is_sym(x) else None, ks[-1] if ks else None, v))
     return out
-  return [(t, v) for v in _op_values(op)]
+  if tag == D.DSET: return [(t, D.dec_key(op[3]), op[4])]
+  if tag in (D.DSETDEFAULT, D.OSET): return [(t, D.dec_key(op[2]), op[3])]
+  if tag in (D.DUPDATE, D.DIOR): return [(t, D.dec_key(k), v) for k, v in op[2]]
+  return [(t, None, v) for v in _op_values(op)]
+
+def written(impl, op):
+  """-> [(container node or None, value tree)] for every value the op writes."""
+  return [(x, v) for x, _, v in written_keyed(impl, op)]
+
+# ---- a symbolic value handed to a field by reference: the cases the model covers (SymCoreTyped.ref_decide) --------------------------
+def t_frozen(t): return bool(t[-1][2])
+def t_takes(dict_, t):
+  """the value type of spec tree t lets a dict (list) through (Typing.vtype + SymCoreTyped.takes)."""
+  k = t[0]
+  if k == 10: return True
+  if k == 7: return dict_
+  if k == 5: return not dict_
+  if k == 9: return all(t_vtyped(c) for c in t[1]) and any(t_takes(dict_, c) for c in t[1])
+  return False
+def t_vtyped(t):
+  if t[0] == 4:      # Enum: typed when its candidates form a chain of types
+    try:
+      return c04.build(t).value_type is not None
+    except Exception:     # pylint: disable=broad-except
+      return True
+  if t[0] == 9: return all(t_vtyped(c) for c in t[1])
+  return True
+def t_route(dict_, t):
+  if t_frozen(t): return False
+  k = t[0]
+  if k == 7: return dict_
+  if k == 5: return not dict_
+  if k == 10: return True
+  if k == 9:
+    for c in t[1]:
+      if t_takes(dict_, c): return t_route(dict_, c)
+  return False
+def t_bound(dict_, t):
+  k = t[0]
+  if k == 7: return t if dict_ else None
+  if k == 5: return None if dict_ else t
+  if k == 9:
+    for c in t[1]:
+      if t_takes(dict_, c): return t_bound(dict_, c)
+  return None
+
+def field_tree(impl, x, key):
+  """The tree of the field a value written into container x under key is checked against, or None."""
+  P = pg()
+  s = impl.spec_of(x)
+  if s is None: return None
+  if isinstance(x, P.List): f = s.element.value
+  else:
+    if s.schema is None or key is None: return None
+    fd = s.schema.get_field(key) if isinstance(key, str) else None
+    if fd is None: return None
+    f = fd.value
+  return c04.render(f)
+
+def ref_modelled(impl, x, key, y, scope, into_copy=False):
+  """y (symbolic) handed to the member-checking container x: True when the model covers what happens (stored as it is, or refused
+  by the field), False when the field would bind / complete / re-flag it (answered 'not applicable' on both sides)."""
+  P = pg()
+  if unfilled(impl, y): return False
+  try:
+    t = field_tree(impl, x, key)
+  except c04.Unrenderable:
+    return False
+  if t is None: return True
+  p = scope_partial(scope)
+  if p is None: p = bool(x.allow_partial) and not into_copy      # list + values: the values are written into the copy, which is not partial
+  if isinstance(y, P.Object):
+    return not t_frozen(t)
+  dict_ = isinstance(y, P.Dict)
+  ys = impl.spec_of(y)
+  if t_route(dict_, t):
+    b = t_bound(dict_, t)
+    if b is None: return ys is None or bool(y.allow_partial) == bool(p)
+    if ys is None: return False
+    try:
+      same = TImpl.spec_line(c04.render(ys)) == TImpl.spec_line(b) and impl.spec_ref(y) >= 1
+    except c04.Unrenderable:
+      return False
+    return same and bool(y.allow_partial) == bool(p)
+  return ys is None
 
 def scope_restrictive(scope):
   """An enclosing as_sealed(True) / allow_writable_accessors(False): it also governs the pg.Dict a written value has become while
@@ -1097,7 +1184,7 @@ def unfilled(impl, x):
   P = pg()
   found = []
   def visit(n, parent, key):
-    if isinstance(n, P.Object) and typed_members(impl, n) and not n._allow_partial and any(v is P.MISSING_VALUE for _, v in D.sym_children(n)): found.append(n)
+    if isinstance(n, P.Object) and typed_members(impl, n) and not n._allow_partial and any(isinstance(v, P.utils.MissingValue) for _, v in D.sym_children(n)): found.append(n)
   D.walk(x, visit)
   return bool(found)
 
@@ -1108,9 +1195,15 @@ def any_typed(impl, x):
   D.walk(x, visit)
   return bool(found)
 
-def value_supported(impl, x, v, scope):
+def value_supported(impl, x, key, v, scope, into_copy=False):
   if x is None or not typed_members(impl, x):
     return True
+  if v[0] == 1:
+    try:
+      y = impl.at((v[1], v[2]))
+    except D.NotApplicable:
+      return True
+    if D.is_sym(y): return ref_modelled(impl, x, key, y, scope, into_copy)
   while v[0] == 2: v = v[1]
   if v[0] == 3:
     # MISSING_VALUE stands for the default of the field, which may hold dicts / lists
@@ -1123,7 +1216,7 @@ def value_supported(impl, x, v, scope):
     except D.NotApplicable:
       return True
     if D.is_sym(y): return False
-    return not ((scope_partial(scope) is not None or scope_restrictive(scope)) and y is pg().MISSING_VALUE)
+    return not ((scope_partial(scope) is not None or scope_restrictive(scope)) and isinstance(y, pg().utils.MissingValue))
   return False
 
 def lit_has_obj(l):
@@ -1135,8 +1228,8 @@ def op_supported(impl, scope, op):
     while v[0] == 2: v = v[1]
     if v[0] == 0 and lit_has_obj(v[1]):
       return False            # objects are constructed through their class schema, not as SymCore literals
-  for x, v in written(impl, op):
-    if not value_supported(impl, x, v, scope):
+  for x, key, v in written_keyed(impl, op):
+    if not value_supported(impl, x, key, v, scope, into_copy=op[0] == D.LADD):
       return False
   if (scope_restrictive(scope) or scope_partial(scope) is not None) and op[0] in (D.DDEL, D.DPOP, D.DCLEAR):
     # removing a declared key stores the default of its field, like assigning MISSING_VALUE
@@ -1170,6 +1263,8 @@ def op_supported(impl, scope, op):
       return False
     if tag in (D.LMUL, D.LADD, D.LCOPY, D.DCOPY, D.CLONE) and unfilled(impl, t):
       return False
+    if tag in (D.LCOPY, D.LADD) and typed_members(impl, t) and any(isinstance(v, P.utils.MissingValue) for _, v in D.sym_children(t)):
+      return False            # the copy of a typed list puts the placeholders of removed elements back after validating the rest
   return True
 
 # ---- hand-written cases and the systematic sweep -------------------------------------------------------------
@@ -1501,6 +1596,63 @@ def typed_sender_cases(rng, full):
               continue
   return out
 
+def ref_sweep_cases(rng):
+  """Symbolic values handed over by reference (correspondence): every member spec kind x receiver {Dict field, dynamic key, List element,
+  Object attribute} x sender {an object, an untyped dict, an untyped list, a typed dict / list bound to the very spec the field binds,
+  the same with the other allow_partial flag, a child of another tree (copied on the way)} x write path.  -> [(label, case)]"""
+  T = pg().typing
+  out = []
+  for kname, k in sweep_kinds():
+    try:
+      ktree = Table.tree(k)
+    except ValueError:
+      continue
+    kspec = c04.build(ktree)
+    good = [v for v in c04.values_for(ktree, rng, limit=30) if v != [1] and c04.accepts(kspec, v, False)]
+    if not good: continue
+    g0 = good[0]
+    own = [v for v in good if v[0] in (6, 8)]          # a dict / list the member spec itself accepts (for the typed sender)
+    for recv in ('Dict', 'Dict-dyn', 'List', 'Object'):
+      try:
+        if recv == 'Object':
+          tb = Table((T.Dict([('x', copy.deepcopy(k)), ('y', T.Int(default=0))]), None, None)); rref = tb.cls[0]
+        elif recv == 'List':
+          tb = Table(); rref = tb.add(T.List(copy.deepcopy(k), max_size=3))
+        else:
+          tb = Table(); rref = tb.add(T.Dict([('a' if recv == 'Dict' else T.StrKey(), copy.deepcopy(k)), ('b', T.Int(default=0))]))
+        kref = tb.add(k) if ktree[0] in (5, 7) else 0
+      except ValueError:
+        continue
+      key = {'Dict': 'a', 'Dict-dyn': 'a', 'List': 0, 'Object': 'x'}[recv]
+      kind_ = {'Dict': 0, 'Dict-dyn': 0, 'List': 1, 'Object': 2}[recv]
+      init = [6, [g0]] if recv == 'List' else [8, [[S(key), g0]]]
+      obj = lambda c: troot(2 + c, tb.cls[c], {'x': 1})
+      # (name, further roots (slots 1..), steps before the write, the value)
+      senders = [('object', [obj(1)], [], [1, 1, []]), ('untyped-dict', [[0, D.mk({'q': 1})]], [], [1, 1, []]), ('untyped-list', [[0, D.mk([1])]], [], [1, 1, []]),
+                 ('child-of-another-tree', [[0, D.mk({'k': {'q': 1}})]], [], [1, 1, [ek('k')]]),
+                 ('object-child-of-another-tree', [[0, D.mk({'k': 1})], obj(1 if recv == 'Object' else 0)], [(NS, [D.DSET, Pp(1), 0, ek('o'), [1, 2, []]])], [1, 1, [ek('o')]])]
+      if kref and own:
+        sk = 0 if ktree[0] == 7 else 1
+        senders += [('typed-same-spec', [[1, sk, kref, [0, 1, 0], own[0]]], [], [1, 1, []]), ('typed-same-spec-partial', [[1, sk, kref, [0, 1, 1], own[0]]], [], [1, 1, []])]
+      for sname, sroots, pre, val in senders:
+        if recv in ('Dict', 'Dict-dyn'):
+          paths = [('setitem', [D.DSET, Pp(0), 0, ek(key), val]), ('setattr', [D.DSET, Pp(0), 1, ek(key), val]), ('setdefault-new', [D.DSETDEFAULT, Pp(0), ek('z'), val]),
+                   ('update', [D.DUPDATE, Pp(0), [[ek('b'), PV(1)], [ek(key), val]]]), ('ior', [D.DIOR, Pp(0), [[ek(key), val]]]),
+                   ('rebind', [D.REBIND, Pp(0), [[[ek(key)], val], [[ek('b')], PV(2)]]])]
+        elif recv == 'List':
+          paths = [('setitem', [D.LSET, Pp(0), 0, val]), ('append', [D.LAPPEND, Pp(0), val]), ('insert', [D.LINSERT, Pp(0), 0, val]),
+                   ('extend', [D.LEXTEND, Pp(0), [[3, g0], val]]), ('iadd', [D.LIADD, Pp(0), [val]]), ('add', [D.LADD, Pp(0), [val]]),
+                   ('rebind', [D.REBIND, Pp(0), [[[ek(0)], val]]]), ('rebind-insert', [D.REBIND, Pp(0), [[[ek(0)], [2, val]]]])]
+        else:
+          paths = [('setattr', [D.OSET, Pp(0), ek('x'), val]), ('rebind', [D.REBIND, Pp(0), [[[ek('y')], PV(1)], [[ek('x')], val]]])]
+        for partial in (0, 1):
+          root = [1, kind_, rref, [0, 1, partial], init]
+          for pname, op in paths:
+            # afterwards: a write into the sender's old slot (or what is left there), and a copy of the receiver
+            out.append(('by-reference/%s/%s/%s/%s%s' % (kname, recv, sname, pname, '/partial' if partial else ''),
+                        mkcase(tb, [root] + sroots, pre + [(NS, op), (NS, [D.DSET, Pp(1), 0, ek('w'), PV(1)]), (NS, [D.CLONE, Pp(0), 0])])))
+  return out
+
 # ---- the check ---------------------------------------------------------------------------------------------------
 ERR_NAMES = {1: 'WritePermissionError', 2: 'KeyError', 3: 'IndexError', 4: 'TypeError', 5: 'ValueError', 6: 'AssertionError', 7: 'AttributeError',
              9: 'other', 97: 'hang', 99: 'not-applicable'}
@@ -1602,6 +1754,14 @@ def run(ctx):
     if rng.random() < keep:
       c[0] = list(quirks); cases.append(c); kinds.append('sweep:' + lab)
   ctx.extra['sweep'] = dict(total=len(sweep), run=sum(1 for k in kinds if k.startswith('sweep')), exhaustive=bool(ctx.thorough))
+  # values handed over by reference: the cases the model covers (an object; an untyped dict / list into a field that routes it to Any
+  # or takes none; a typed dict / list that carries the spec the field binds) and, answered 'not applicable' on both sides, the others
+  rsweep = ref_sweep_cases(rng)
+  tsweep = [(lab, c) for lab, c in typed_sender_cases(rng, bool(ctx.thorough)) if all(r[0] != 2 for r in c[3]) and all(op[0] != LSETSLICE for _, op in c[4])]
+  for lab, c in rsweep + tsweep:
+    if ctx.thorough or rng.random() < 0.1:
+      c[0] = list(quirks); cases.append(c); kinds.append('sweep-by-reference:' + lab.split('/')[0])
+  ctx.extra['sweep_by_reference'] = dict(total=len(rsweep) + len(tsweep), run=sum(1 for k in kinds if k.startswith('sweep-by-reference')), exhaustive=bool(ctx.thorough))
   n = ctx.scale(900, 25000)
   gens = [(TGen(rng, quirks), 'random', 0.6), (TGen(rng, quirks, p_invalid=0.5), 'random-invalid', 0.2),
           (TGen(rng, quirks, focus={D.REBIND, D.DUPDATE, D.LEXTEND, D.LIADD, D.LIMUL, D.DCLEAR, D.LCLEAR, D.DPOP, D.LPOP, D.LDEL}), 'batch-and-removal', 0.2)]
@@ -1638,22 +1798,32 @@ def run(ctx):
       diffs[id(c)] = describe_diff(c, a, b)
   bad = ctx.compare('SymCoreTyped.run vs typed pg.Dict / pg.List / pg.Object (construction outcomes, result and snapshot with bound specs of every root after every step)',
                     cases, impl_outs, model_outs, describe=lambda c: diffs.get(id(c)))
-  # --- oracle only: symbolic values written into typed containers, slice assignment, frozen containers (outside the model)
+  # --- oracle only (wall-clock budget in the quick tier: what is skipped is reported)
+  deadline = None if ctx.thorough else t0 + 100.0
+  skipped = {}
+  # typed values (a pg.Dict / pg.List that carries its own value spec) handed to typed fields, every relation between the two specs x
+  # every write path incl. construction x content inside / outside the field's spec, then a write into the stored child
+  t2 = time.time()
+  ts = typed_sender_cases(rng, bool(ctx.thorough))
+  done = 0
+  for lab, c in ts:
+    if deadline and time.time() > deadline: break
+    c[0] = list(quirks)
+    run_one(ctx, c, 'typed-sender:' + lab.split('/')[1], False, [], sample_ok=False); done += 1
+  if done < len(ts): skipped['typed_sender_sweep'] = len(ts) - done
+  ctx.extra['typed_sender_sweep'] = dict(cases=done, relations=len(typed_sender_relations()), exhaustive=bool(ctx.thorough))
+  ctx.log('typed values into typed fields: %d cases in %.1fs' % (done, time.time() - t2))
+  # symbolic values written into typed containers, slice assignment, frozen containers (outside the model)
   t1 = time.time()
   wild = TGen(rng, quirks)
   nw = ctx.scale(250, 5000)
+  done = 0
   for _ in range(nw):
-    run_one(ctx, wild.case(rng.choice([4, 8, 10]), wild=True), 'oracle-only', False, [], sample_ok=False)
-  ctx.log('oracle-only histories: %d in %.1fs' % (nw, time.time() - t1))
-  # --- oracle only: typed values (a pg.Dict / pg.List that carries its own value spec) handed to typed fields, every relation between
-  # the two specs x every write path incl. construction x content inside / outside the field's spec, then a write into the stored child
-  t2 = time.time()
-  ts = typed_sender_cases(rng, bool(ctx.thorough))
-  for lab, c in ts:
-    c[0] = list(quirks)
-    run_one(ctx, c, 'typed-sender:' + lab.split('/')[1], False, [], sample_ok=False)
-  ctx.extra['typed_sender_sweep'] = dict(cases=len(ts), relations=len(typed_sender_relations()), exhaustive=bool(ctx.thorough))
-  ctx.log('typed values into typed fields: %d cases in %.1fs' % (len(ts), time.time() - t2))
+    if deadline and time.time() > deadline: break
+    run_one(ctx, wild.case(rng.choice([4, 8, 10]), wild=True), 'oracle-only', False, [], sample_ok=False); done += 1
+  if done < nw: skipped['oracle_only_histories'] = nw - done
+  ctx.log('oracle-only histories: %d in %.1fs' % (done, time.time() - t1))
+  if skipped: ctx.extra['skipped_for_wall_clock'] = skipped
   ctx.extra['corpus_cases'] = len(corpus())
   # --- violation search when something is broken and the oracle has not hit: more histories biased to the op kinds that disagree
   if ctx.is_broken() and not ctx.hits:
